@@ -1,5 +1,204 @@
 import OasisModel.Proto
-/- C01 proposal cache: driver stub (not built yet). -/
+import OasisModel.Mux.Proposal
+/-
+Driver for the proposal-cache model (C01), used as a checker: every call line carries what the
+real multiplexer answered; the model, instantiated with the executor outputs *observed* on a
+plain-execution oracle replica, answers `ok` or `DIVERGE <detail>`.
+
+Executor observations and block definitions (any number, before the calls that need them):
+  okres <digest>                                   response to a block-metadata transaction
+  obs <s> <hdr> <lc> <ev> <usertxs|-> <rb|PANIC> <rds|-> <re|PANIC> <root> <evroot>
+        on committed state `s`, BeginBlock(hdr, lc, ev) answered `rb`, the ordinary transactions
+        answered `rds`, EndBlock answered `re`, leaving state root `root`, events root `evroot`
+  blk <id> <hdr> <lc> <ev> <rawtxs|->
+        rawtx: u:<id> | m:<signer>:<wf 0|1>:<stateroot>:<evroot> | m:<signer>:<wf>:bad
+        hdr:   <height>:<time>:<proposer>:<nvh>
+Calls (one replica per session):
+  new <self> <root>
+  prepare <blk> <returned rawtxs|->
+  process <hash> <blk> <ACCEPT|REJECT>
+  begin <hash> <blk> <rb|PANIC>
+  deliver <rawtx> <rd|PANIC>
+  end <re|PANIC>
+  commit <apphash|PANIC>
+  restart | checktx <rawtx> | simulate <tx> | query
+After a PANIC that the model also predicts the session accepts only `restart`.
+-/
 namespace OasisModel.Mux.Driver
-def main : IO Unit := IO.eprintln "mode not implemented"
+open OasisModel.Proto OasisModel.Mux
+
+structure Obs where
+  s : String
+  hdr : String
+  lc : String
+  ev : String
+  txs : List String
+  rb : Option String
+  rds : List String
+  re : Option String
+  root : String
+  evroot : String
+
+/-- Working state of the table-driven executor: which execution, and how far it got. -/
+structure WS where
+  s : String
+  hdr : String
+  lc : String
+  ev : String
+  pre : List String
+
+def Obs.key (o : Obs) (w : WS) : Bool := o.s == w.s && o.hdr == w.hdr && o.lc == w.lc && o.ev == w.ev
+
+def isPrefix : List String → List String → Bool
+  | [], _ => true
+  | _ :: _, [] => false
+  | a :: as, b :: bs => a == b && isPrefix as bs
+
+def proposerOf (hdr : String) : Nat :=
+  match hdr.splitOn ":" with
+  | [_, _, p, _] => p.toNat?.getD 0
+  | _ => 0
+
+abbrev TApps := Apps String WS String String String String String String
+abbrev TBlk := Blk String String String String String
+abbrev TMux := Mux String WS String String String String String
+abbrev TRaw := RawTx String String
+
+/-- The executor given by the observation table. Missing observations answer `UNKNOWN`. -/
+def mkApps (T : List Obs) (okres : String) : TApps :=
+  { begin := fun s hdr lc ev =>
+      let w : WS := { s := s, hdr := hdr, lc := lc, ev := ev, pre := [] }
+      match T.find? (fun o => o.key w) with
+      | none => some (w, "UNKNOWN")
+      | some o => match o.rb with
+        | none => none
+        | some rb => some (w, rb)
+    deliver := fun w t =>
+      let pre := w.pre ++ [t]
+      let w' := { w with pre := pre }
+      match T.find? (fun o => o.key w && isPrefix pre o.txs && pre.length ≤ o.rds.length) with
+      | none => (w', "UNKNOWN")
+      | some o => (w', (o.rds.drop (pre.length - 1)).headD "UNKNOWN")
+    endb := fun w =>
+      match T.find? (fun o => o.key w && o.txs == w.pre && o.rds.length == o.txs.length) with
+      | none => some (w, "UNKNOWN")
+      | some o => o.re.map fun re => (w, re)
+    tree := fun w =>
+      match T.find? (fun o => o.key w && o.txs == w.pre && o.re.isSome) with
+      | none => "UNKNOWN"
+      | some o => o.root
+    root := id
+    evroot := fun w =>
+      match T.find? (fun o => o.key w && o.txs == w.pre && o.re.isSome) with
+      | none => "UNKNOWN"
+      | some o => o.evroot
+    okR := okres
+    proposer := proposerOf
+    checkTx := fun s _ => (s, "")
+    simulate := fun _ _ => "" }
+
+structure St where
+  table : List Obs := []
+  okres : String := "?"
+  blks : List (Nat × TBlk) := []
+  mux : Option TMux := none
+  crashed : Bool := false
+  dead : Bool := false
+
+def parseStrs (s : String) : List String :=
+  if s == "-" then [] else s.splitOn ","
+
+def parseRaw (s : String) : Option TRaw :=
+  match s.splitOn ":" with
+  | ["u", id] => some (.user id)
+  | ["m", sg, wf, "bad"] => do
+    let sg ← sg.toNat?
+    pure (.sysMeta sg (wf == "1") none)
+  | ["m", sg, wf, sr, er] => do
+    let sg ← sg.toNat?
+    pure (.sysMeta sg (wf == "1") (some (sr, er)))
+  | _ => none
+
+def showRaw : TRaw → String
+  | .user id => "u:" ++ id
+  | .sysMeta sg wf none => s!"m:{sg}:{if wf then 1 else 0}:bad"
+  | .sysMeta sg wf (some (sr, er)) => s!"m:{sg}:{if wf then 1 else 0}:{sr}:{er}"
+
+def showRaws (l : List TRaw) : String :=
+  if l.isEmpty then "-" else ",".intercalate (l.map showRaw)
+
+def optPanic (s : String) : Option String := if s == "PANIC" then none else some s
+
+def showResp : Resp String String String → String
+  | .prepared txs => showRaws txs
+  | .accept => "ACCEPT"
+  | .reject => "REJECT"
+  | .res r => r
+  | .appHash h => h
+  | .unit => "-"
+
+def step (st : St) (line : String) : St × String :=
+  if st.dead then (st, "skip") else
+  let fail (msg : String) : St × String := ({ st with dead := true }, "DIVERGE " ++ msg)
+  let A := mkApps st.table st.okres
+  /- run one call whose implementation answer is `impl` (PANIC allowed) -/
+  let call (c : Call String String String String String) (impl : String) : St × String :=
+    match st.mux with
+    | none => fail "no replica (missing `new`)"
+    | some m =>
+      if st.crashed then fail "call after a crash without restart" else
+      match OasisModel.Mux.step A m c with
+      | none =>
+        if impl == "PANIC" then ({ st with crashed := true }, "ok")
+        else fail s!"model: the call panics; implementation answered {impl}"
+      | some (m', r) =>
+        if impl == "PANIC" then fail s!"implementation panicked; model answers {showResp r}"
+        else if showResp r == impl || impl == "*" then ({ st with mux := some m' }, "ok")
+        else fail s!"model={showResp r} impl={impl}"
+  match words line with
+  | ["okres", d] => ({ st with okres := d }, "ok")
+  | ["obs", s, hdr, lc, ev, txs, rb, rds, re, root, evroot] =>
+    let o : Obs := ⟨s, hdr, lc, ev, parseStrs txs, optPanic rb, parseStrs rds, optPanic re, root, evroot⟩
+    ({ st with table := st.table ++ [o] }, "ok")
+  | ["blk", id, hdr, lc, ev, txs] =>
+    match id.toNat?, (parseStrs txs).mapM parseRaw with
+    | some id, some txs => ({ st with blks := (id, { hdr := hdr, txs := txs, ev := ev, lc := lc }) :: st.blks }, "ok")
+    | _, _ => fail "bad-op"
+  | ["new", self, root] =>
+    match self.toNat? with
+    | some self => ({ st with mux := some ⟨self, root, none, root⟩, crashed := false }, "ok")
+    | none => fail "bad-op"
+  | ["prepare", b, impl] =>
+    match b.toNat?.bind (fun b => st.blks.lookup b) with
+    | some b => call (.prepare b) impl
+    | none => fail "bad-op"
+  | ["process", h, b, impl] =>
+    match h.toNat?, b.toNat?.bind (fun b => st.blks.lookup b) with
+    | some h, some b => call (.process h b) impl
+    | _, _ => fail "bad-op"
+  | ["begin", h, b, impl] =>
+    match h.toNat?, b.toNat?.bind (fun b => st.blks.lookup b) with
+    | some h, some b => call (.begin h b) impl
+    | _, _ => fail "bad-op"
+  | ["deliver", t, impl] =>
+    match parseRaw t with
+    | some t => call (.deliver t) impl
+    | none => fail "bad-op"
+  | ["end", impl] => call .endBlock impl
+  | ["commit", impl] => call .commit impl
+  | ["restart"] =>
+    match st.mux with
+    | some m => ({ st with mux := some (restart m), crashed := false }, "ok")
+    | none => fail "no replica"
+  | ["checktx", t] =>
+    match parseRaw t with
+    | some t => call (.checkTx t) "*"
+    | none => fail "bad-op"
+  | ["simulate", t] => call (.simulate t) "*"
+  | ["query"] => call .query "*"
+  | [] => (st, "ok")
+  | _ => fail "bad-op"
+
+def main : IO Unit := loop step {}
+
 end OasisModel.Mux.Driver
